@@ -94,5 +94,7 @@ def extra_stages(kind="full"):
         # untriaged defect would read as an alarm on the unchanged tree.
         if os.environ.get("VERIF_PAIR_STAGES"):
             return [depth1, (["T:3"], ["=3", "core0"]), (["T:3"], ["core0", "=3"])]
-        return [depth1]
+        # depth 1 on the primary table only: the datetime-index and type-rich tables were completed for the four "light" checks, not for
+        # C01 / C06 / C07 (their last runs hit the wall-clock budget on a machine shared by four checks before reaching this stage)
+        return [(["T:3"], [3])]
     return [depth1, (["T:3"], ["=3", "core0"])]
